@@ -105,6 +105,10 @@ def reverse_shift_mismatches(F):
 
 
 def check_config(ctx, F, tag, cfg):
+    # ---------------- R7 the helpers do not fail inside the domain their documentation states (interval interpretation, A12)
+    if F.data["target"].get("overflow_checks"):
+        import intervals
+        intervals.check_documented_domains(ctx, F, tag, "C17.R7")
     # ---------------- R6 reversal width
     hits, seen = reverse_shift_mismatches(F)
     ctx.ob("C17.R6.reverse-shift-width", "crate" + tag, "src/", not hits, "dataflow",
